@@ -1,0 +1,282 @@
+//go:build verif
+// +build verif
+
+// Contracts for package quicklz (checked by /verif/govc). Compiled only with -tags verif.
+//
+// The codecs themselves (C qlz_compress/qlz_decompress and the Go bit packing in Compress /
+// Decompress) are out of reach; they are modelled by ASSUMED contracts over an uninterpreted
+// "decompressed content" relation QlzD. Only the header arithmetic and the control flow of the
+// safe wrappers are verified.
+//
+// IMPORTANT: QlzD has a dummy executable body. Every contract that mentions it (directly or through
+// a callee contract) must carry `opaque QlzD spec_quicklz_QlzD QlzValid spec_quicklz_QlzValid QlzVhash spec_quicklz_QlzVhash` so that neither the symbolic
+// executor nor the SMT script sees that body.
+
+package quicklz
+
+import (
+	"unsafe"
+
+	"github.com/douban/gobeansdb/cmem"
+	"github.com/douban/gobeansdb/utils"
+)
+
+var _ = cmem.AllocRL
+
+func forall(lo, hi int, p func(i int) bool) bool {
+	for i := lo; i < hi; i++ {
+		if !p(i) {
+			return false
+		}
+	}
+	return true
+}
+func all(x interface{}) bool   { return true }
+func elems(x interface{}) bool { return true }
+func fresh(x interface{}) bool { return true }
+func sameSlice(a, b []byte) bool {
+	if len(a) != len(b) || cap(a) != cap(b) {
+		return false
+	}
+	if cap(a) == 0 {
+		return true
+	}
+	return unsafe.Pointer(&a[:1][0]) == unsafe.Pointer(&b[:1][0])
+}
+
+// cost charged to cmem.AllocRL for a buffer (same definition as in cmem/verif_contracts.go)
+func allocCount(addr uintptr) int64 {
+	if addr != 0 {
+		return 1
+	}
+	return 0
+}
+func allocSize(addr uintptr, cap_ int) int64 {
+	if addr != 0 {
+		return int64(cap_)
+	}
+	return 0
+}
+
+// ---------- QuickLZ header (from the format description) ----------
+// byte 0: flags; bit 1 set = long header (9 bytes: flags, 4-byte LE compressed size, 4-byte LE
+// decompressed size), clear = short header (3 bytes: flags, 1-byte compressed size, 1-byte
+// decompressed size).
+
+func SpecLE4(s []byte, o int) int {
+	return int(s[o]) | int(s[o+1])<<8 | int(s[o+2])<<16 | int(s[o+3])<<24
+}
+
+// little-endian value of the n bytes at offset o (the shape of fastRead, used only as its invariant)
+func SpecLE(s []byte, o, n int) int {
+	if n <= 0 {
+		return 0
+	}
+	return SpecLE(s, o, n-1) | int(s[o+n-1])<<(uint(n-1)*8)
+}
+func SpecLongHeader(s []byte) bool { return s[0]&2 == 2 }
+func SpecHeaderLen(s []byte) int {
+	if SpecLongHeader(s) {
+		return 9
+	}
+	return 3
+}
+
+// SpecHeaderOK: the slice is long enough to hold its own header
+func SpecHeaderOK(s []byte) bool {
+	return len(s) >= 3 && (!SpecLongHeader(s) || len(s) >= 9)
+}
+func SpecSizeC(s []byte) int {
+	if SpecLongHeader(s) {
+		return SpecLE4(s, 1)
+	}
+	return int(s[1])
+}
+func SpecSizeD(s []byte) int {
+	if SpecLongHeader(s) {
+		return SpecLE4(s, 5)
+	}
+	return int(s[2])
+}
+
+// QlzD(c, i): byte i of the decompression of the QuickLZ stream c (uninterpreted; dummy body).
+func QlzD(c []byte, i int) byte { return 0 }
+
+// QlzValid(c): c is a stream produced by a QuickLZ LEVEL 3 compressor (uninterpreted; dummy body).
+// QlzD is the reference (C, compiled for level 3) decompression; the Go decompressor is only claimed
+// to agree with it on valid level-3 streams. (A level-1 stream from the Go Compress is decoded by the
+// C library to wrong bytes without error, or crashes it: see the report.)
+func QlzValid(c []byte) bool { return true }
+
+// SpecVhash: the beansdb 16-bit value hash, same text as store.specVhash (store imports quicklz, so
+// it cannot be referenced from here). Needed only to state the congruence clause below.
+func SpecVhash(v []byte) uint16 {
+	l := len(v)
+	h := uint32(l) * 97
+	if l <= 1024 {
+		return uint16(h + utils.SpecFnv1a(v, l))
+	}
+	h += utils.SpecFnv1a(v[:512], 512)
+	h *= 97
+	h += utils.SpecFnv1a(v[l-512:], 512)
+	return uint16(h)
+}
+
+// QlzVhash(c): SpecVhash of the reference decompression of c (uninterpreted; dummy body). This is a
+// definitional extension: "SpecVhash(d) == QlzVhash(c) whenever d holds the decompression of c"
+// follows from the content clause because SpecVhash depends only on length and content, but SMT
+// solvers cannot derive it (induction over the FNV fold), so the assumed codec contracts state it.
+func QlzVhash(c []byte) uint16 { return 0 }
+
+//@ func headerLen
+//@   props C10
+//@   ints bv
+//@   requires len(source) >= 1
+//@   ensures result0 == SpecHeaderLen(source)
+//@   ensures result0 == 3 || result0 == 9
+
+//@ func fastRead
+//@   props C10
+//@   ints bv
+//@   requires 0 <= numbytes && numbytes <= 8 && 0 <= i && i < 1<<32 && i+numbytes <= len(a)
+//@   ensures result0 == SpecLE(a, i, numbytes)
+//@   loop 1 invariant 0 <= j && j <= numbytes && l == SpecLE(a, i, j)
+
+//@ func SizeCompressed
+//@   props C10
+//@   ints bv
+//@   requires SpecHeaderOK(source)
+//@   ensures result0 == SpecSizeC(source)
+//@   ensures 0 <= result0 && result0 < 1<<32
+
+//@ func SizeDecompressed
+//@   props C10
+//@   ints bv
+//@   requires SpecHeaderOK(source)
+//@   ensures result0 == SpecSizeD(source)
+//@   ensures 0 <= result0 && result0 < 1<<32
+
+// ---------- the codecs: assumed ----------
+// Accounting clauses are written from the code as it is: both C wrappers can return a buffer that
+// is charged to AllocRL together with a failure indication (CCompress: scratch malloc fails after
+// dst.Alloc succeeded; CDecompress: qlz_decompress returns a size different from the announced one).
+
+//@ func CCompress
+//@   props C10 C12
+//@   ints bv
+//@   opaque QlzD spec_quicklz_QlzD QlzValid spec_quicklz_QlzValid QlzVhash spec_quicklz_QlzVhash
+//@   assumed cgo qlz_compress (C code, unsafe pointers): output is a well-formed QuickLZ stream of at most len(src)+400 bytes whose decompression is src
+//@   requires len(src) >= 1 && len(src) < 1<<31
+//@   modifies cmem.AllocRL.Size, cmem.AllocRL.MaxSize, cmem.AllocRL.Count, cmem.AllocRL.MaxCount
+//@   ensures cmem.AllocRL.Count == old(cmem.AllocRL.Count)+allocCount(dst.Addr) && cmem.AllocRL.Size == old(cmem.AllocRL.Size)+allocSize(dst.Addr, dst.Cap)
+//@   ensures ok ==> dst.Cap == len(src)+400 && len(dst.Body) <= len(src)+400 && fresh(dst.Body)
+//@   ensures ok ==> SpecHeaderOK(dst.Body) && SpecSizeC(dst.Body) == len(dst.Body) && SpecSizeD(dst.Body) == len(src)
+//@   ensures ok ==> QlzValid(dst.Body) && forall(0, len(src), func(i int) bool { return QlzD(dst.Body, i) == src[i] })
+//@   ensures ok ==> QlzVhash(dst.Body) == SpecVhash(src)
+
+//@ func CDecompress
+//@   props C10 C12
+//@   ints bv
+//@   opaque QlzD spec_quicklz_QlzD QlzValid spec_quicklz_QlzValid QlzVhash spec_quicklz_QlzVhash
+//@   assumed cgo qlz_decompress (C code, unsafe pointers, no bounds checks on src): fills a fresh buffer of sizeD bytes with the decompression of src or reports a size mismatch
+//@   requires len(src) >= 1 && sizeD >= 0
+//@   modifies cmem.AllocRL.Size, cmem.AllocRL.MaxSize, cmem.AllocRL.Count, cmem.AllocRL.MaxCount
+//@   ensures cmem.AllocRL.Count == old(cmem.AllocRL.Count)+allocCount(dst.Addr) && cmem.AllocRL.Size == old(cmem.AllocRL.Size)+allocSize(dst.Addr, dst.Cap)
+//@   ensures len(dst.Body) == 0 || len(dst.Body) == sizeD   // also on failure: nothing allocated, or the untruncated buffer
+//@   ensures err == nil ==> len(dst.Body) == sizeD && dst.Cap == sizeD && fresh(dst.Body)
+//@   ensures err == nil ==> forall(0, sizeD, func(i int) bool { return dst.Body[i] == QlzD(src, i) })
+//@   ensures err == nil && sizeD == SpecSizeD(src) ==> SpecVhash(dst.Body) == QlzVhash(src)
+
+// CDecompressSafe: govc ends a path at a panic and does not run the deferred recover() handler on
+// it, so the "short input -> index panic in SizeCompressed -> recovered -> err != nil" paths cannot
+// be verified. Without the `assumed` line the body verifies with 23 ok / 2 failed, the two failures
+// being exactly call.SizeCompressed#1.requires#1[.2] (SpecHeaderOK(src): len 0 and len 8 with the
+// long-header bit); with an extra `requires SpecHeaderOK(src)` it is 25 ok / 0 failed. On the
+// panicking paths dst is the zero CArray (Addr == 0) and err != nil, which satisfies the clauses.
+//@ func CDecompressSafe
+//@   props C10 C12
+//@   ints bv
+//@   opaque QlzD spec_quicklz_QlzD QlzValid spec_quicklz_QlzValid QlzVhash spec_quicklz_QlzVhash
+//@   assumed panic/recover path (index panic on inputs shorter than their header) is not modelled by govc; non-panicking paths verified separately (see comment). NOT covered and in fact false: memory safety of the C decoder on malformed streams (quicklz.h has QLZ_MEMORY_SAFE commented out; SIGSEGV observed)
+//@   modifies cmem.AllocRL.Size, cmem.AllocRL.MaxSize, cmem.AllocRL.Count, cmem.AllocRL.MaxCount
+//@   ensures cmem.AllocRL.Count == old(cmem.AllocRL.Count)+allocCount(dst.Addr) && cmem.AllocRL.Size == old(cmem.AllocRL.Size)+allocSize(dst.Addr, dst.Cap)
+//@   ensures len(dst.Body) == 0 || (SpecHeaderOK(src) && len(dst.Body) == SpecSizeD(src))
+//@   ensures err == nil ==> SpecHeaderOK(src) && len(src) == SpecSizeC(src)
+//@   ensures err == nil ==> len(dst.Body) == SpecSizeD(src) && dst.Cap == SpecSizeD(src) && fresh(dst.Body)
+//@   ensures err == nil ==> forall(0, SpecSizeD(src), func(i int) bool { return dst.Body[i] == QlzD(src, i) })
+//@   ensures err == nil ==> SpecVhash(dst.Body) == QlzVhash(src)
+
+//@ func Compress
+//@   props C10
+//@   ints bv
+//@   opaque QlzD spec_quicklz_QlzD QlzValid spec_quicklz_QlzValid QlzVhash spec_quicklz_QlzVhash
+//@   assumed Go port of the QuickLZ compressor (400 lines of bit packing): output is a well-formed stream; at level 3 its reference decompression is source (bounded differential test, 3000 random inputs)
+//@   requires (level == 1 || level == 3) && len(source) < 1<<31
+//@   ensures len(source) == 0 ==> result0 == nil
+//@   ensures len(source) > 0 ==> fresh(result0) && SpecHeaderOK(result0) && SpecSizeC(result0) == len(result0) && SpecSizeD(result0) == len(source)
+//@   ensures len(source) > 0 && level == 3 ==> QlzValid(result0) && forall(0, len(source), func(i int) bool { return QlzD(result0, i) == source[i] })
+//@   ensures len(source) > 0 && level == 3 ==> QlzVhash(result0) == SpecVhash(source)
+
+//@ func Decompress
+//@   props C10
+//@   ints bv
+//@   opaque QlzD spec_quicklz_QlzD QlzValid spec_quicklz_QlzValid QlzVhash spec_quicklz_QlzVhash
+//@   assumed Go port of the QuickLZ decompressor: every normal return yields a fresh buffer of the announced size (both return statements); agrees with the reference decompression on valid streams; may panic (index out of range, unsupported level) on anything else
+//@   may_panic
+//@   requires SpecHeaderOK(source)
+//@   ensures len(result0) == SpecSizeD(source)
+//@   ensures QlzValid(source) ==> forall(0, SpecSizeD(source), func(i int) bool { return result0[i] == QlzD(source, i) })
+//@   ensures QlzValid(source) ==> SpecVhash(result0) == QlzVhash(source)
+
+// DecompressSafe: UNDECIDED without `assumed` ("cquicklz.go:66:4: unsupported type (error, bool)":
+// the comma-ok type assertion err, ok = e.(error) in the deferred handler), and the same
+// panic/recover limitation as CDecompressSafe.
+//@ func DecompressSafe
+//@   props C10
+//@   ints bv
+//@   opaque QlzD spec_quicklz_QlzD QlzValid spec_quicklz_QlzValid QlzVhash spec_quicklz_QlzVhash
+//@   assumed deferred recover handler uses a comma-ok type assertion (unsupported by govc) and panic/recover paths are not modelled; clauses read off the code: both error returns precede/follow the two checks
+//@   ensures err == nil ==> SpecHeaderOK(src) && len(src) == SpecSizeC(src)
+//@   ensures err == nil ==> len(dst) == SpecSizeD(src)
+//@   ensures err == nil && QlzValid(src) ==> forall(0, SpecSizeD(src), func(i int) bool { return dst[i] == QlzD(src, i) })
+//@   ensures err == nil && QlzValid(src) ==> SpecVhash(dst) == QlzVhash(src)
+
+// ---------- cross-implementation round trips (ghost code over the assumed codec contracts) ----------
+// These do not prove anything about the codecs; they check that the assumed contracts compose to the
+// C10 statement "each implementation decompresses the other's output to the original" and record
+// exactly which assumptions that statement rests on.
+
+func lemmaGoCompressCDecompress(src []byte) (d cmem.CArray, err error) {
+	c := Compress(src, 3)
+	d, err = CDecompressSafe(c)
+	return
+}
+
+//@ func lemmaGoCompressCDecompress
+//@   props C10
+//@   ints bv
+//@   opaque QlzD spec_quicklz_QlzD QlzValid spec_quicklz_QlzValid QlzVhash spec_quicklz_QlzVhash SpecFnv1a spec_utils_SpecFnv1a
+//@   requires len(src) >= 1 && len(src) < 1<<31
+//@   modifies cmem.AllocRL.Size, cmem.AllocRL.MaxSize, cmem.AllocRL.Count, cmem.AllocRL.MaxCount
+//@   ensures err == nil ==> len(d.Body) == len(src) && SpecVhash(d.Body) == SpecVhash(src)
+//@   ensures err == nil ==> forall(0, len(src), func(i int) bool { return d.Body[i] == src[i] })
+
+func lemmaCCompressGoDecompress(src []byte) (out []byte, ok bool) {
+	c, ok := CCompress(src)
+	if !ok {
+		return nil, false
+	}
+	out, err := DecompressSafe(c.Body)
+	c.Free()
+	return out, err == nil
+}
+
+//@ func lemmaCCompressGoDecompress
+//@   props C10
+//@   ints bv
+//@   opaque QlzD spec_quicklz_QlzD QlzValid spec_quicklz_QlzValid QlzVhash spec_quicklz_QlzVhash SpecFnv1a spec_utils_SpecFnv1a
+//@   requires len(src) >= 1 && len(src) < 1<<31-400
+//@   modifies cmem.AllocRL.Size, cmem.AllocRL.MaxSize, cmem.AllocRL.Count, cmem.AllocRL.MaxCount
+//@   ensures ok ==> len(out) == len(src) && SpecVhash(out) == SpecVhash(src)
+//@   ensures ok ==> forall(0, len(src), func(i int) bool { return out[i] == src[i] })
+//@   ensures ok ==> cmem.AllocRL.Count == old(cmem.AllocRL.Count) && cmem.AllocRL.Size == old(cmem.AllocRL.Size)
